@@ -697,7 +697,7 @@ func (x *Exec) xmlDecode(data *Term, target Value) Value {
 	if data.IsConst() || x.attr(data, "undecodable") {
 		return x.errorC("xml: syntax error / EOF")
 	}
-	if data.Op == "uf" && (data.S == "deflate" || strings.HasPrefix(data.S, "b64") || data.S == "qe") {
+	if data.Op == "uf" && (data.S == "deflate" || strings.HasPrefix(data.S, "b64") || escapeUF[data.S]) {
 		return x.errorC("xml: syntax error") // encoded bytes are not XML
 	}
 	// unknown bytes: not XML, or some document of the target type
